@@ -434,3 +434,206 @@ Proof.
     rewrite G. rewrite find_after_remove; auto. apply bget_unique; apply HI.
   - unfold cget. rewrite F. reflexivity.
 Qed.
+
+(* ---- eviction reaches the low watermark: two CLOCK passes suffice (the first clears every
+   reference bit it does not evict, the second finds every remaining entry unreferenced) ---- *)
+Definition unref (b : list centry) : Prop := forall e, In e b -> ce_ref e = false.
+
+Lemma sweep_bucket_done b : forall m target ev b' m' ev',
+  sweep_bucket b m target ev = (b', m', ev', true) -> m' <= target.
+Proof.
+  induction b as [|e t IH]; intros m target ev b' m' ev' H; cbn [sweep_bucket] in H.
+  - injection H as <- <- <- Hd. apply N.leb_le. exact Hd.
+  - destruct (ce_ref e).
+    + destruct (m <=? target) eqn:E.
+      * injection H as <- <- <-. apply N.leb_le. exact E.
+      * destruct (sweep_bucket t m target ev) as [[[t' m1] ev1] d1] eqn:E1. injection H as <- <- <- ->. eauto.
+    + destruct (m - ce_size e <=? target) eqn:E.
+      * injection H as <- <- <-. apply N.leb_le. exact E.
+      * eauto.
+Qed.
+
+Lemma sweep_bucket_notdone b : forall m target ev b' m' ev',
+  sweep_bucket b m target ev = (b', m', ev', false) -> unref b' /\ target < m'.
+Proof.
+  induction b as [|e t IH]; intros m target ev b' m' ev' H; cbn [sweep_bucket] in H.
+  - injection H as <- <- <- Hd. split; [intros e []|]. apply N.leb_gt. exact Hd.
+  - destruct (ce_ref e).
+    + destruct (m <=? target); [discriminate|].
+      destruct (sweep_bucket t m target ev) as [[[t' m1] ev1] d1] eqn:E1. injection H as <- <- <- ->.
+      destruct (IH _ _ _ _ _ _ E1) as [U L]. split; [|exact L].
+      intros e0 [<-|Hin]; [reflexivity | exact (U e0 Hin)].
+    + destruct (m - ce_size e <=? target); [discriminate|]. eauto.
+Qed.
+
+Lemma sweep_bucket_unref_notdone b : forall m target ev b' m' ev',
+  unref b -> sweep_bucket b m target ev = (b', m', ev', false) -> b' = [].
+Proof.
+  induction b as [|e t IH]; intros m target ev b' m' ev' U H; cbn [sweep_bucket] in H.
+  - injection H as <- _ _ _. reflexivity.
+  - rewrite (U e (or_introl eq_refl)) in H.
+    destruct (m - ce_size e <=? target); [discriminate|].
+    apply (IH _ _ _ _ _ _ (fun x Hx => U x (or_intror Hx)) H).
+Qed.
+
+Lemma sweep_pass_done order : forall all start m target ev all' m' ev' vis,
+  sweep_pass order all start m target ev = (all', m', ev', true, vis) -> m' <= target.
+Proof.
+  induction order as [|[i b] t IH]; intros all start m target ev all' m' ev' vis H; cbn [sweep_pass] in H; [discriminate|].
+  destruct (sweep_bucket b m target ev) as [[[b1 m1] ev1] d1] eqn:E. destruct d1.
+  - injection H as <- <- <- <-. exact (sweep_bucket_done _ _ _ _ _ _ _ E).
+  - eauto.
+Qed.
+
+(* after a pass that did not reach the target: target < m', every visited bucket holds only
+   unreferenced entries, the others are as before *)
+Lemma sweep_pass_notdone order : forall all start m target ev all' m' ev' vis,
+  sorted_idx all -> (forall i b, In (i, b) order -> bget i all = b) -> NoDup (map fst order) ->
+  sweep_pass order all start m target ev = (all', m', ev', false, vis) ->
+  sorted_idx all' /\
+  (order <> [] -> target < m') /\
+  (forall i, In i (map fst order) -> unref (bget i all')) /\
+  (forall i, ~ In i (map fst order) -> bget i all' = bget i all).
+Proof.
+  induction order as [|[i b] t IH]; intros all start m target ev all' m' ev' vis HS HG ND H; cbn [sweep_pass] in H.
+  - injection H as <- <- <- <-. split; [exact HS|]. split; [congruence|]. split; [intros i []|reflexivity].
+  - destruct (sweep_bucket b m target ev) as [[[b1 m1] ev1] d1] eqn:E. destruct d1; [discriminate|].
+    destruct (sweep_bucket_notdone _ _ _ _ _ _ _ E) as [U1 L1].
+    inversion ND as [|? ? Hni ND']; subst.
+    assert (HS1 : sorted_idx (bset i b1 all)) by (apply sorted_bset; exact HS).
+    assert (HG1 : forall j x, In (j, x) t -> bget j (bset i b1 all) = x).
+    { intros j x Hin. assert (NE : i <> j).
+      { intros ->. apply Hni. apply in_map_iff. exists (j, x). split; [reflexivity | exact Hin]. }
+      rewrite bget_bset_other by assumption. apply HG. right. exact Hin. }
+    destruct (IH _ _ _ _ _ _ _ _ _ HS1 HG1 ND' H) as (S' & Lt & Uv & Same).
+    split; [exact S'|]. split.
+    + intros _. destruct t as [|p t']; [|apply Lt; discriminate].
+      cbn [sweep_pass] in H. injection H as <- <- <- <-. exact L1.
+    + split.
+      * intros j [<-|Hin]; [|exact (Uv j Hin)].
+        cbn [fst]. rewrite (Same i Hni).
+        assert (Hb : bget i (bset i b1 all) = b1).
+        { clear -HS. induction all as [|[k y] l IHl]; cbn.
+          - destruct b1; cbn; [reflexivity | rewrite N.eqb_refl; reflexivity].
+          - destruct HS as (Hlt & HS'). destruct (N.eqb_spec k i) as [->|NE].
+            + destruct b1; cbn; [apply bget_above; intros k2 b2 Hk; exact (Hlt _ _ Hk) | rewrite N.eqb_refl; reflexivity].
+            + destruct (N.ltb_spec i k).
+              * destruct b1; cbn.
+                -- destruct (N.eqb_spec k i); [lia|]. destruct (N.ltb_spec i k); [reflexivity | lia].
+                -- rewrite N.eqb_refl. reflexivity.
+              * cbn. destruct (N.eqb_spec k i); [lia|]. destruct (N.ltb_spec i k); [lia|]. exact (IHl HS'). }
+        rewrite Hb. exact U1.
+      * intros j Hn. rewrite (Same j (fun H0 => Hn (or_intror H0))).
+        apply bget_bset_other; [exact HS|]. intros ->. apply Hn. left. reflexivity.
+Qed.
+
+(* when every entry is unreferenced, a pass that does not reach the target empties every visited bucket *)
+Lemma sweep_pass_unref_notdone order : forall all start m target ev all' m' ev' vis,
+  sorted_idx all -> (forall i b, In (i, b) order -> bget i all = b) -> NoDup (map fst order) ->
+  (forall i b, In (i, b) order -> unref b) ->
+  sweep_pass order all start m target ev = (all', m', ev', false, vis) ->
+  forall i, In i (map fst order) -> bget i all' = [].
+Proof.
+  induction order as [|[i b] t IH]; intros all start m target ev all' m' ev' vis HS HG ND HU H j Hj; [destruct Hj|].
+  cbn [sweep_pass] in H.
+  destruct (sweep_bucket b m target ev) as [[[b1 m1] ev1] d1] eqn:E. destruct d1; [discriminate|].
+  pose proof (sweep_bucket_unref_notdone _ _ _ _ _ _ _ (HU i b (or_introl eq_refl)) E) as ->.
+  inversion ND as [|? ? Hni ND']; subst.
+  assert (HS1 : sorted_idx (bset i [] all)) by (apply sorted_bset; exact HS).
+  assert (HG1 : forall k x, In (k, x) t -> bget k (bset i [] all) = x).
+  { intros k x Hin. assert (NE : i <> k).
+    { intros ->. apply Hni. apply in_map_iff. exists (k, x). split; [reflexivity | exact Hin]. }
+    rewrite bget_bset_other by assumption. apply HG. right. exact Hin. }
+  destruct Hj as [<-|Hj].
+  - cbn [fst]. destruct (sweep_pass_notdone _ _ _ _ _ _ _ _ _ _ HS1 HG1 ND' H) as (_ & _ & _ & Same).
+    rewrite (Same i Hni).
+    clear -HS. induction all as [|[k y] l IHl]; cbn; [reflexivity|].
+    destruct HS as (Hlt & HS'). destruct (N.eqb_spec k i) as [->|NE].
+    + apply bget_above. intros k2 b2 Hk. exact (Hlt _ _ Hk).
+    + destruct (N.ltb_spec i k).
+      * cbn. destruct (N.eqb_spec k i); [lia|]. destruct (N.ltb_spec i k); [reflexivity | lia].
+      * cbn. destruct (N.eqb_spec k i); [lia|]. destruct (N.ltb_spec i k); [lia|]. exact (IHl HS').
+  - apply (IH _ _ _ _ _ _ _ _ _ HS1 HG1 ND' (fun k x Hx => HU k x (or_intror Hx)) H). exact Hj.
+Qed.
+
+Lemma In_rotate_conv start l p : In p l -> In p (rotate_at start l).
+Proof.
+  intros H. unfold rotate_at. apply in_or_app.
+  destruct (start <=? fst p) eqn:E.
+  - left. apply filter_In. split; assumption.
+  - right. apply filter_In. split; [exact H|]. apply N.leb_gt in E. apply N.ltb_lt. exact E.
+Qed.
+
+Lemma total_zero_if_all_empty l : (forall i b, In (i, b) l -> b = []) -> total l = 0.
+Proof.
+  induction l as [|[i b] t IH]; cbn; intros H; [reflexivity|].
+  rewrite (H i b (or_introl eq_refl)). cbn. apply IH. intros j x Hx. exact (H j x (or_intror Hx)).
+Qed.
+
+Theorem evict_scans_reaches_target : forall bs hnd m target ev bs' h' m' ev',
+  BInv bs m -> evict_scans 3 bs hnd m target ev = (bs', h', m', ev') -> m' <= target.
+Proof.
+  intros bs hnd m target ev bs' h' m' ev' HI H.
+  cbn [evict_scans] in H.
+  destruct (m <=? target) eqn:E0; [injection H as <- <- <- <-; apply N.leb_le; exact E0|].
+  destruct (sweep_pass (rotate_at (hnd mod CACHE_BUCKETS) bs) bs (hnd mod CACHE_BUCKETS) m target ev)
+    as [[[[bs1 m1] ev1] d1] v1] eqn:P1.
+  destruct d1; [injection H as <- <- <- <-; exact (sweep_pass_done _ _ _ _ _ _ _ _ _ _ P1)|].
+  (* pass 1 did not reach the target: everything left is unreferenced *)
+  assert (HI1 : BInv bs1 m1).
+  { eapply sweep_pass_spec; [exact HI| |apply NoDup_rotate; apply HI|exact P1].
+    intros i b Hin. apply bget_In; [apply HI|eapply In_rotate; eauto]. }
+  assert (HG : forall i b, In (i, b) (rotate_at (hnd mod CACHE_BUCKETS) bs) -> bget i bs = b).
+  { intros i b Hin. apply bget_In; [apply HI|eapply In_rotate; eauto]. }
+  destruct (sweep_pass_notdone _ _ _ _ _ _ _ _ _ _ (proj1 HI) HG (NoDup_rotate _ _ (proj1 HI)) P1) as (S1 & _ & U1 & Same1).
+  assert (AllU : forall i b, In (i, b) bs1 -> unref b).
+  { intros i b Hin. pose proof (bget_In _ _ _ S1 Hin) as Hb. rewrite <- Hb.
+    destruct (in_dec N.eq_dec i (map fst (rotate_at (hnd mod CACHE_BUCKETS) bs))) as [Hi|Hn]; [exact (U1 i Hi)|].
+    rewrite (Same1 i Hn).
+    (* i is not an index of bs at all, so its bucket is empty *)
+    assert (Hemp : bget i bs = []).
+    { destruct (bget i bs) as [|e0 b0] eqn:Eb; [reflexivity|]. exfalso. apply Hn.
+      assert (Hin0 : In (i, e0 :: b0) bs).
+      { clear -Eb. revert Eb. induction bs as [|[k y] l IHl]; cbn; [discriminate|].
+        destruct (N.eqb_spec k i) as [->|NE]; [intros ->; left; reflexivity|].
+        destruct (i <? k); [discriminate|]. intros G. right. exact (IHl G). }
+      apply in_map_iff. exists (i, e0 :: b0). split; [reflexivity | apply In_rotate_conv; exact Hin0]. }
+    rewrite Hemp. intros e []. }
+  cbn [evict_scans] in H.
+  destruct (m1 <=? target) eqn:E1; [injection H as <- <- <- <-; apply N.leb_le; exact E1|].
+  destruct (sweep_pass (rotate_at ((hnd + v1) mod CACHE_BUCKETS) bs1) bs1 ((hnd + v1) mod CACHE_BUCKETS) m1 target ev1)
+    as [[[[bs2 m2] ev2] d2] v2] eqn:P2.
+  destruct d2; [injection H as <- <- <- <-; exact (sweep_pass_done _ _ _ _ _ _ _ _ _ _ P2)|].
+  (* pass 2 over unreferenced entries without reaching the target would have emptied the cache *)
+  exfalso.
+  assert (HG2 : forall i b, In (i, b) (rotate_at ((hnd + v1) mod CACHE_BUCKETS) bs1) -> bget i bs1 = b).
+  { intros i b Hin. apply bget_In; [exact S1|eapply In_rotate; eauto]. }
+  assert (HI2 : BInv bs2 m2).
+  { eapply sweep_pass_spec; [exact HI1|exact HG2|apply NoDup_rotate; exact S1|exact P2]. }
+  destruct (sweep_pass_notdone _ _ _ _ _ _ _ _ _ _ S1 HG2 (NoDup_rotate _ _ S1) P2) as (S2 & Lt2 & _ & Same2).
+  pose proof (sweep_pass_unref_notdone _ _ _ _ _ _ _ _ _ _ S1 HG2 (NoDup_rotate _ _ S1)
+                (fun i b Hin => AllU i b (In_rotate _ _ _ Hin)) P2) as Emp.
+  assert (Tz : total bs2 = 0).
+  { apply total_zero_if_all_empty. intros i b Hin. pose proof (bget_In _ _ _ S2 Hin) as Hb. rewrite <- Hb.
+    destruct (in_dec N.eq_dec i (map fst (rotate_at ((hnd + v1) mod CACHE_BUCKETS) bs1))) as [Hi|Hn]; [exact (Emp i Hi)|].
+    rewrite (Same2 i Hn).
+    destruct (bget i bs1) as [|e0 b0] eqn:Eb; [reflexivity|]. exfalso. apply Hn.
+    assert (Hin0 : In (i, e0 :: b0) bs1).
+    { clear -Eb. revert Eb. induction bs1 as [|[k y] l IHl]; cbn; [discriminate|].
+      destruct (N.eqb_spec k i) as [->|NE]; [intros ->; left; reflexivity|].
+      destruct (i <? k); [discriminate|]. intros G. right. exact (IHl G). }
+    apply in_map_iff. exists (i, e0 :: b0). split; [reflexivity | apply In_rotate_conv; exact Hin0]. }
+  destruct HI2 as (_ & M2 & _). rewrite Tz in M2.
+  destruct (rotate_at ((hnd + v1) mod CACHE_BUCKETS) bs1) as [|p0 r0] eqn:Er.
+  - (* no bucket at all: m1 = total bs1 = 0 <= target, contradiction with E1 *)
+    cbn [sweep_pass] in P2. injection P2 as <- <- _ _. apply N.leb_gt in E1. lia.
+  - assert (target < m2) by (apply Lt2; discriminate). lia.
+Qed.
+
+(* evict_entries leaves the usage at or below the low watermark *)
+Theorem cevict_reaches_low c : CInv c -> cmem (cevict c) <= low c.
+Proof.
+  intros HI. unfold cevict. destruct (cmem c <=? low c) eqn:E; [apply N.leb_le; exact E|].
+  destruct (evict_scans 3 _ _ _ _ _) as [[[bs h] m] ev] eqn:Es. cbn.
+  eapply evict_scans_reaches_target; [apply CInv_BInv; exact HI | exact Es].
+Qed.
